@@ -16,6 +16,7 @@ Import ListNotations.
 (* regenerated scalar kernels of analysis/__init__.py *)
 Record akern (F : Type) := mk_akern {
   a_power_scale : F -> F;            (* dot / 1000 *)
+  a_abs_applied : bool -> bool;      (* constraint_currents: is np.abs applied, given return_magnitudes *)
   a_proportion : F -> F -> F;        (* total_delivered / total_requested *)
   a_remaining : F -> F -> F;         (* EV.remaining_demand: energy_delivered, requested_energy *)
   a_demand_met : F -> F -> bool;     (* ev.remaining_demand < threshold *)
@@ -23,7 +24,7 @@ Record akern (F : Type) := mk_akern {
   a_nema : F -> F -> F -> F;         (* mean, mean, max  |->  (max - mean) / mean *)
   a_minutes : F -> F -> F            (* i, period |-> period * i *)
 }.
-Arguments a_power_scale {F}. Arguments a_proportion {F}. Arguments a_remaining {F}.
+Arguments a_power_scale {F}. Arguments a_abs_applied {F}. Arguments a_proportion {F}. Arguments a_remaining {F}.
 Arguments a_demand_met {F}. Arguments a_demands_ratio {F}. Arguments a_nema {F}. Arguments a_minutes {F}.
 
 Section Analysis.
@@ -110,11 +111,12 @@ Section Analysis.
     end.
 
   (* analysis.constraint_currents(sim, return_magnitudes, constraint_ids).
-     NOTE the flag is inverted relative to its docstring: `if not return_magnitudes: np.abs(...)`. *)
+     NOTE the flag is inverted relative to its docstring: `if not return_magnitudes: np.abs(...)`;
+     the test itself is regenerated from the code (a_abs_applied), so the model follows either polarity. *)
   Definition constraint_currents (tr : traj) (return_magnitudes : bool) (ids : option (list Z))
     : list (Z * series) :=
     let cur := constraint_current tr ids in
-    let out := if negb return_magnitudes
+    let out := if a_abs_applied A return_magnitudes
                then map (fun c => Mag (map (fun p => cabs (fst p) (snd p)) (combine (fst c) (snd c)))) cur
                else map (fun c => Cplx (fst c) (snd c)) cur in
     let names := match ids with
@@ -160,7 +162,7 @@ Section Analysis.
 
   (* None = KeyError (unknown phase id) / ValueError (empty vstack); per period None = nan (mean 0) *)
   Definition current_unbalance (tr : traj) (phase_ids : list Z) : option (list (option F)) :=
-    let d := constraint_currents tr false (Some phase_ids) in
+    let d := constraint_currents tr false (Some phase_ids) in      (* the default return_magnitudes=False *)
     match all_some (map (fun p => dict_get p d) phase_ids) with
     | None => None
     | Some [] => None
